@@ -258,6 +258,29 @@ class SymBool(Sym):
 
     __hash__ = Sym.__hash__
 
+    # bool is an int in python: (a > 0) - (a < 0), sum(flags), ...
+    def _num(self):
+        return SymNum(z3.If(self.t, z3.IntVal(1), z3.IntVal(0)))
+
+    def __add__(self, o):
+        return self._num() + (o._num() if isinstance(o, SymBool) else o)
+
+    __radd__ = __add__
+
+    def __sub__(self, o):
+        return self._num() - (o._num() if isinstance(o, SymBool) else o)
+
+    def __rsub__(self, o):
+        return (o._num() if isinstance(o, SymBool) else o) - self._num()
+
+    def __mul__(self, o):
+        return self._num() * (o._num() if isinstance(o, SymBool) else o)
+
+    __rmul__ = __mul__
+
+    def __neg__(self):
+        return -self._num()
+
 
 UF = {}
 
@@ -469,7 +492,9 @@ class SymNum(Sym):
         r = s._cmp(o, lambda a, b: a != b)
         return True if r is NotImplemented else r
 
-    __hash__ = Sym.__hash__
+    def __hash__(s):
+        # membership of a symbolic number in a set / dict keys would silently compare term identity: not carried
+        s._unsup("hash")
 
     def __bool__(s):
         return bool(SymBool(s.t != 0))
